@@ -345,14 +345,6 @@ func (tp *TableParser) processVerticalMerges(table *ParsedTable) {
 		for cellIdx := range row.Cells {
 			cell := &table.Rows[rowIdx].Cells[cellIdx]
 
-			// Check if this cell starts a merge
-			if !cell.IsMergedContinuation && mergeStarts[colIdx] == -1 {
-				// Check if vMerge restart
-				// We need to look at the raw vMerge value
-				// For now, assume any cell that's not a continuation could start a merge
-				mergeStarts[colIdx] = rowIdx
-			}
-
 			if cell.IsMergedContinuation && mergeStarts[colIdx] >= 0 {
 				// Increment the row span of the merge start cell
 				startRow := mergeStarts[colIdx]
@@ -361,8 +353,9 @@ func (tp *TableParser) processVerticalMerges(table *ParsedTable) {
 					table.Rows[startRow].Cells[startColIdx].RowSpan++
 				}
 			} else if !cell.IsMergedContinuation {
-				// Reset merge tracking for this column
-				mergeStarts[colIdx] = -1
+				// Any cell that is not a continuation could start a merge: it stays the
+				// merge start of its column until the next non-continuation cell
+				mergeStarts[colIdx] = rowIdx
 			}
 
 			colIdx += cell.ColSpan
